@@ -1362,7 +1362,7 @@ Local Open Scope N_scope.`
 
 	nRand, nUnequal, nLayered, nSched, maxN := 70, 25, 25, 3, 8
 	if c.Thorough() {
-		nRand, nUnequal, nLayered, nSched, maxN = 1100, 300, 300, 5, 10
+		nRand, nUnequal, nLayered, nSched, maxN = 900, 300, 300, 5, 10
 	}
 	if c.Search {
 		nRand, nUnequal, nLayered, nSched = nRand*4, nUnequal*3, nLayered*3, nSched+3
